@@ -107,7 +107,7 @@ def connection_value(gdb, addr):
     return gdb.Value(T['wl_connection'].pointer(), gdb.Obj(T['wl_connection'], {}, addr=addr))
 
 
-def frames_received(gdb, closure, side, conn_addr, iface):
+def frames_received(gdb, closure, side, conn_addr, iface, nested=False):
     """frame of wl_closure_invoke/dispatch with its caller (dispatch_event on the client, wl_client_connection_data on the server)"""
     T = gdb._wl_types
     CP = gdb.CHAR.pointer()
@@ -129,6 +129,19 @@ def frames_received(gdb, closure, side, conn_addr, iface):
         parent = gdb.Frame('wl_client_connection_data', {})
         # `target` is a wl_object* that is really the first member of a wl_resource
         target = gdb.Value(T['wl_object'].pointer(), resource)
+    if nested:
+        # a process that is both a client and a server (nested compositor): further out on the stack there is a dispatch of the OTHER kind,
+        # belonging to another connection; the caller of wl_closure_invoke decides, not anything further out
+        other = connection_value(gdb, 0x66660000)
+        if side == 'client':
+            outer = gdb.Frame('wl_client_connection_data', {})
+        else:
+            d2 = gdb.Value(T['wl_display'].pointer(), gdb.Obj(T['wl_display'], {
+                'proxy_object': gdb.Value(T['wl_object'], wl_object), 'proxy_display': gdb.Value(gdb.VOID.pointer(), None), 'proxy_queue': gdb.Value(gdb.VOID.pointer(), None),
+                'flags': gdb.Value(gdb.UINT, 0), 'refcount': gdb.Value(gdb.INT, 1), 'connection': other}, addr=0xb800))
+            outer = gdb.Frame('dispatch_event', {'display': d2})
+        mid = gdb.Frame('handler_in_the_program', {}, older=gdb.Frame('wl_closure_invoke', {'closure': closure, 'target': target}, older=outer))
+        parent._older = mid
     return gdb.Frame('wl_closure_invoke', {'closure': closure, 'target': target}, older=parent)
 
 
